@@ -923,6 +923,8 @@ class M68k(Machine):
 
     def wr(self, e, v):
         v &= 0xFFFFFFFF
+        if not (e[0] == "r" and e[1] == "a"):
+            self.z = 1 if v == 0 else 0        # moves and logic to anything but an address register set the condition codes
         if e[0] == "r":
             if e[1] == "d":
                 self.d[e[2]] = v
@@ -1355,6 +1357,9 @@ class Avr(Machine):
             self.sreg_i = 0
         elif mn == "sei":
             self.sreg_i = 1
+        elif mn in ("brne", "breq"):
+            if (self.Z == 1) == (mn == "breq"):
+                return self.jump_label(o[0], here)
         elif mn == "rjmp":
             return self.jump_label(o[0], here)
         elif mn == "ret":
